@@ -208,13 +208,15 @@ Definition wcs_ell_inverts (S : Q * Q -> Q * Q) (SE PE : Q * Q -> ell -> ell) : 
 Definition fit_id (stage : Z) (fi : fit_input) : option (list cfit) :=
   Some (map (fun c => mkCfit c 0 0 0 0 0) (fi_pars fi)).
 
-(* affine WCS with exact dyadic arithmetic: x (rows) follows dec, y (cols) follows -ra *)
-Definition aff_S (cx cy scale ra0 dec0 : Q) (s : Q * Q) : Q * Q :=
-  ((snd s - dec0) * scale + cx, (ra0 - fst s) * scale + cy).
-Definition aff_P (cx cy scale ra0 dec0 : Q) (p : Q * Q) : Q * Q :=
-  (ra0 - (snd p - cy) / scale, dec0 + (fst p - cx) / scale).
-Definition aff_SE (scale rot : Q) (_ : Q * Q) (e : ell) : ell := mkEll (el_a e * scale) (el_b e * scale) (el_pa e + rot).
-Definition aff_PE (scale rot : Q) (_ : Q * Q) (e : ell) : ell := mkEll (el_a e / scale) (el_b e / scale) (el_pa e - rot).
+(* affine WCS with exact dyadic arithmetic: x (rows) follows dec with scx pixels / degree, y (cols) follows -ra
+   with scy pixels / degree (non-square pixels when they differ); the ellipse conversion scales the major axis
+   by sca and the minor axis by scb, so that the major axis can span FEWER pixels than the minor one *)
+Definition aff_S (cx cy scx scy ra0 dec0 : Q) (s : Q * Q) : Q * Q :=
+  ((snd s - dec0) * scx + cx, (ra0 - fst s) * scy + cy).
+Definition aff_P (cx cy scx scy ra0 dec0 : Q) (p : Q * Q) : Q * Q :=
+  (ra0 - (snd p - cy) / scy, dec0 + (fst p - cx) / scx).
+Definition aff_SE (sca scb rot : Q) (_ : Q * Q) (e : ell) : ell := mkEll (el_a e * sca) (el_b e * scb) (el_pa e + rot).
+Definition aff_PE (sca scb rot : Q) (_ : Q * Q) (e : ell) : ell := mkEll (el_a e / sca) (el_b e / scb) (el_pa e - rot).
 
 Definition obs_box (b : box) := [qout (b_xmin b); qout (b_xmax b); qout (b_ymin b); qout (b_ymax b)].
 Definition obs_cpar (c : cpar) :=
@@ -232,9 +234,9 @@ Definition obs_comp (c : comp) :=
    [qout (o_err_ra c); qout (o_err_dec c); qout (o_err_a c); qout (o_err_b c); qout (o_err_pa c)]).
 
 (* everything the harness compares for one run *)
-Definition obs (cx cy scale ra0 dec0 rot beam_a beam_b kf kc : Q) (im : image) (stage : Z) (islands : list (list src)) :=
-  let S := aff_S cx cy scale ra0 dec0 in let P := aff_P cx cy scale ra0 dec0 in
-  let SE := aff_SE scale rot in let PE := aff_PE scale rot in
+Definition obs (cx cy scx scy sca scb ra0 dec0 rot beam_a beam_b kf kc : Q) (im : image) (stage : Z) (islands : list (list src)) :=
+  let S := aff_S cx cy scx scy ra0 dec0 in let P := aff_P cx cy scx scy ra0 dec0 in
+  let SE := aff_SE sca scb rot in let PE := aff_PE sca scb rot in
   let BM := fun _ : Q * Q => (beam_a, beam_b) in
   (vary_table stage,
    map (fun isle => obs_fit_input (refit_input S SE BM kf im isle)) islands,
